@@ -7,6 +7,7 @@ import (
 	"math"
 	"math/big"
 	"math/rand"
+	"regexp"
 	"strconv"
 	"strings"
 
@@ -485,6 +486,12 @@ func c17judge(ip *interp.Interp, c *c17case) (key, detail string, dkey string) {
 				struct{ src, wantIns, wantOut, what string }{"'" + n + ".sym?", "true", "", "symbol-predicate"})
 		} else {
 			progs = append(progs, struct{ src, wantIns, wantOut, what string }{"{" + n + ": 7, zz: 1}.keys", `["zz"]`, "", "private-property-not-listed"})
+			if reC17private.MatchString(n) {
+				// one underscore, a letter, then letters/digits/underscores and an optional ?/!: a (private) symbol
+				progs = append(progs, struct{ src, wantIns, wantOut, what string }{"'" + n + ".sym?", "true", "", "symbol-predicate"},
+					struct{ src, wantIns, wantOut, what string }{"[{" + n + ": 7}].map('" + n + ")", "[7]", "", "symbol-as-function"},
+					struct{ src, wantIns, wantOut, what string }{"'" + n + "({" + n + ": 7})", "7", "", "symbol-called"})
+			}
 		}
 		_, predefined := ip.Const.Get(object.GetSymHash(n))
 		for _, p := range progs {
@@ -512,6 +519,8 @@ func c17judge(ip *interp.Interp, c *c17case) (key, detail string, dkey string) {
 	}
 	return "", "", dkey
 }
+
+var reC17private = regexp.MustCompile(`^_[a-zA-Z][a-zA-Z0-9_]*[!?]?$`)
 
 func isSubsequence(sub, s string) bool {
 	sr, r := []rune(sub), []rune(s)
@@ -560,6 +569,26 @@ func runC17(w *fw.W) {
 			probe, want string
 		}
 		n := 0
+		// raw strings keep every character between the back quotes (line breaks of any spelling, backslashes, quotes)
+		for ri, raw := range []string{"a\r\nb", "GET / HTTP/1.1\r\nHost: x\r\n\r\n", "a\rb", "a\nb", "\r\n", "tab\there \\n \"q\" #1", "  lead\r\n  trail  ", "é\r\n日"} {
+			if ip == nil {
+				ip = interp.New()
+			}
+			src := "r := `" + raw + "`\n[r.len, r == \"" + strings.NewReplacer("\\", "\\\\", "\"", "\\\"", "\r", "\\r", "\n", "\\n", "\t", "\\t", "#{", "#\\{").Replace(raw) + "\"]"
+			o := ip.Run(src, interp.Options{})
+			n++
+			want := fmt.Sprintf("[%d, true]", len([]rune(raw)))
+			if strings.Contains(raw, "#{") {
+				want = "" // (interpolation text inside a raw string: only the length is judged)
+				if !o.OK() || !strings.HasPrefix(o.Inspect, fmt.Sprintf("[%d,", len([]rune(raw)))) {
+					vs.add("C17|raw-str|wrong-value", fmt.Sprintf("raw string %q (case %d) → %s, want length %d", raw, ri, o.Outcome(), len([]rune(raw))), src)
+				}
+				continue
+			}
+			if !o.OK() || o.Inspect != want {
+				vs.add("C17|raw-str|wrong-value", fmt.Sprintf("raw string %q (case %d) → %s, want %s", raw, ri, o.Outcome(), want), src)
+			}
+		}
 		for _, l := range []lit{
 			{[]string{"sp := ? "}, `sp == " "`, "true"}, {[]string{"tb := ?\t"}, `tb == "\t"`, "true"}, {[]string{`q := "  padded  "`}, "q.len", "10"},
 			{[]string{`w := "a" + ? `}, "w.len", "2"}, {[]string{"multi", "r := `a", "  two  ", "b`", "", "single"}, "r.len", "11"},
